@@ -1,35 +1,79 @@
 (* C20 — the REGENERATED step functions (Gen/Seq.v) equal the hand-written reference functions of Model/Cmd.v.
    These two lemmas are the only place that looks inside the generated definitions: every other proof uses
-   req_ref / resp_ref.  A change of CMDRequest.clock / CMDResponse.clock in /repo that alters behaviour breaks them. *)
+   req_ref / resp_ref.  The proofs are SEMANTIC: every atomic boolean condition (of the generated code and of the
+   reference) is case-split, python truth tests are reduced to `x =? 0`, and each leaf is closed field by field up to
+   linear arithmetic (with `(t << 4) | d = t*16 + d` for a nibble d), so behaviour-preserving rewrites of clock()
+   (`if r == 0: A else: B` vs `if r: B else: A`, `(t << 4) | d` vs `t*16 + d`, `t = t - 1` vs `t -= 1`, reordered
+   statements, renamed locals) keep them valid; a change of behaviour breaks them. *)
 From V Require Import Base.Bits Gen.WireOps Gen.Seq Spec.C20 Model.Cmd.
 
 Lemma Wire_prepare_trunc w v : Wire_prepare w v = trunc w v.
 Proof. reflexivity. Qed.
 
-(* decide every `if` whose condition is not a literal, normalising lets and tuple matches in between *)
+(* Python's (t << 4) | d for a nibble d and ANY integer t (also negative: a multiple of 16 has a zero low nibble) *)
+Lemma lor_nib t d : 0 <= d < 16 -> Z.lor (py_shl t 4) d = t * 16 + d.
+Proof. intros. unfold py_shl. rewrite lor_add_disjoint by (change (2 ^ 4) with 16; lia). reflexivity. Qed.
+Lemma shl4_mul t : py_shl t 4 = t * 16.
+Proof. unfold py_shl. rewrite shiftl_mul by lia. reflexivity. Qed.
+
+(* find an atomic boolean (no andb / orb / negb on top) inside a condition *)
+Ltac atom_of b :=
+  lazymatch b with
+  | negb ?c => atom_of c
+  | andb ?c _ => atom_of c
+  | orb ?c _ => atom_of c
+  | _ => b
+  end.
+
+(* decide every `if` whose condition is not a literal, atom by atom, normalising lets / tuple matches in between *)
 Ltac split_ifs :=
-  repeat (cbv beta iota zeta;
+  repeat (cbv beta iota zeta; cbn [negb andb orb];
           match goal with
           | |- context [if ?b then _ else _] =>
-              lazymatch b with true => fail | false => fail | _ => destruct b end
+              lazymatch b with
+              | true => fail
+              | false => fail
+              | _ => let a := atom_of b in
+                     lazymatch a with
+                     | true => fail | false => fail
+                     | _ => let E := fresh "E" in destruct a eqn:E
+                     end
+              end
           end).
+
+(* a leaf: equal states and outputs, field by field, up to arithmetic; contradictory case combinations by lia *)
+Ltac leaf :=
+  cbv beta iota zeta; cbn [negb andb orb];
+  first
+    [ reflexivity
+    | exfalso; lia
+    | rewrite ?lor_nib by lia; rewrite ?shl4_mul;
+      repeat match goal with
+             | |- @eq (_ * _)%type (_, _) (_, _) => f_equal
+             | |- @eq CMDRequest_state _ _ => f_equal
+             | |- @eq CMDRequest_out _ _ => f_equal
+             | |- @eq CMDResponse_state _ _ => f_equal
+             | |- @eq CMDResponse_out _ _ => f_equal
+             | |- @eq (option Z) (Some _) (Some _) => f_equal
+             end;
+      first [ reflexivity | lia | f_equal; lia ] ].
 
 Lemma CMDRequest_clock_ref W st v ch : rq_clock W st v ch = req_ref W st v ch.
 Proof.
   destruct st as [s ct nc t]. destruct W as [wr wii wvi wio wsi wsv wso wck wsr].
-  unfold rq_clock, CMDRequest_clock, req_ref, mk_rq_st, mk_rq_out.
+  unfold rq_clock, CMDRequest_clock, req_ref, mk_rq_st, mk_rq_out, py_truth.
   rewrite !Wire_prepare_trunc.
   cbn [CMDRequest_s_state CMDRequest_s_cur_type CMDRequest_s_new_c CMDRequest_s_temp
        ww_ready ww_index_in ww_v_in ww_index_out ww_set_index_in ww_set_v_in ww_set_index_out ww_clk_pulse ww_start_resp].
-  split_ifs; reflexivity.
+  split_ifs; leaf.
 Qed.
 
 Lemma CMDResponse_clock_ref wvalid wv st vin size start ready :
   CMDResponse_clock wvalid wv st vin size start ready = resp_ref wvalid wv st vin size start ready.
 Proof.
   destruct st as [s t ts a].
-  unfold CMDResponse_clock, resp_ref, mk_rs_st, mk_rs_out.
+  unfold CMDResponse_clock, resp_ref, mk_rs_st, mk_rs_out, py_truth.
   rewrite !Wire_prepare_trunc.
   cbn [CMDResponse_s_state CMDResponse_s_temp CMDResponse_s_temp_size CMDResponse_s_aux].
-  split_ifs; reflexivity.
+  split_ifs; leaf.
 Qed.
